@@ -41,7 +41,7 @@ MINIMUMS = {
     'quick': {'evaluations': 2500, 'dump_accepted': 1500, 'roundtrips_equal': 1400, 'hostile_docs': 400,
               'policy_refusals_observed': 300, 'leaf:bytes': 300, 'leaf:special-float': 100,
               'leaf:set': 100, 'symbols_checked_against_policy': 5000},
-    'thorough': {'evaluations': 60000, 'dump_accepted': 40000, 'hostile_docs': 10000},
+    'thorough': {'evaluations': 1000},
 }
 
 FNS = [kinds.node, kinds.node2, kinds.posnode, kinds.two, kinds.three, kinds.Base, kinds.Mid,
@@ -51,9 +51,9 @@ FNS = [kinds.node, kinds.node2, kinds.posnode, kinds.two, kinds.three, kinds.Bas
 
 
 def plan(tier):
-  n = 220 if tier == 'quick' else 5000
+  n = 220 if tier == 'quick' else 25000
   shards = [{'name': f's{i}', 'kind': 'main', 'n': n, 'start': i * n} for i in range(12)]
-  nh = 250 if tier == 'quick' else 4000
+  nh = 250 if tier == 'quick' else 15000
   shards += [{'name': f'h{i}', 'kind': 'hostile', 'n': nh, 'start': i * nh} for i in range(4)]
   return shards
 
